@@ -26,7 +26,7 @@ def reproduced(path):
         return False
 
 
-def _playback(unit, scratch, timeout=900):
+def _playback(unit, scratch, obligation, timeout=1500):
     """Returns (test_source, native_output, failed_natively) or None."""
     cmd = core.kani_cmd(unit) + ["-Z", "concrete-playback", "--concrete-playback=print"]
     rc, out, to, wall = core.run_proc(cmd, scratch.repo, timeout, mem_gb=unit.get("mem_gb", 20))
@@ -39,14 +39,33 @@ def _playback(unit, scratch, timeout=900):
     tn = re.search(r"fn (kani_concrete_playback_\w+)", test_src)
     if not tn:
         return None
-    # append the test to the harness module's parent file in the scratch copy, run natively
+    # the test goes into a scratch copy of the harness module (harness fns are private to it)
     target = os.path.join(scratch.repo, unit["file"])
-    with open(target, "a") as f:
-        f.write("\n#[cfg(kani)] mod verif_kani_playback { use super::verif_kani::*; use super::*;\n" + test_src + "\n}\n")
+    orig_mod = os.path.join(VERIF, "contracts", "kani", unit["modfile"])
+    pb_mod = os.path.join(scratch.dir, "playback_" + unit["modfile"].replace("/", "_"))
+    with open(pb_mod, "w") as f:
+        f.write(open(orig_mod).read() + "\n" + test_src + "\n")
+    src = open(target).read()
+    if orig_mod not in src:
+        return None
+    open(target, "w").write(src.replace(orig_mod, pb_mod))
+    # native run: the dependency stubs are only needed by kani-compiler; use the real crates
+    ct = os.path.join(scratch.repo, "Cargo.toml")
+    txt = open(ct).read()
+    cut = txt.find("# --- added by /verif overlay")
+    if cut > 0:
+        open(ct, "w").write(txt[:cut])
+    import shutil
+    shutil.copy(os.path.join(core.REPO, "Cargo.lock"), os.path.join(scratch.repo, "Cargo.lock"))
     cmd2 = ["cargo", "kani", "playback", "-Z", "concrete-playback", "--", tn.group(1)]
     rc2, out2, to2, _ = core.run_proc(cmd2, scratch.repo, timeout, mem_gb=None)
-    failed = ("test result: FAILED" in out2) or ("panicked at" in out2)
-    return test_src, "\n".join(out2.strip().splitlines()[-40:]), failed
+    oname = obligation["id"].split("::", 1)[1]
+    if oname == "no-panic":
+        failed = "panicked at" in out2 and "test result: FAILED" in out2
+    else:
+        failed = ("OBL " + oname) in out2 and "test result: FAILED" in out2
+    keep = [l for l in out2.splitlines() if re.search(r"panicked at|OBL |test result|^test |assertion|Failed|error(\[|:)", l)]
+    return test_src, "\n".join(keep[-40:]), failed
 
 
 def make_replay(prop, obligation, result, unit, scratch, tier):
@@ -67,7 +86,7 @@ def make_replay(prop, obligation, result, unit, scratch, tier):
         rec["failing_checks_verbatim"] = blocks[:10]
     try:
         if unit["engine"] == "kani" and unit.get("kind") in ("K-full", "K-bounded") and not unit.get("no_playback"):
-            pb = _playback(unit, scratch)
+            pb = _playback(unit, scratch, obligation)
             if pb:
                 rec["concrete_playback_test"], rec["native_output"], rec["reproduced_on_real_code"] = pb
                 rec["how"] = ("Kani concrete playback: the generated #[test] feeds the counterexample bytes to the harness, "
